@@ -209,7 +209,14 @@ class C17(Prop):
     id = "C17"
     lean_modules = ["PkgProofs.Props.C17"]
     generated = ["MetadataTables"]
-    theorems = []
+    theorems = [
+        "C17.gating_table", "C17.versions_table", "C17.tables_consistent", "C17.conv_ok_iff_valid", "C17.fromRaw_kind",
+        "C17.from_raw_ok_iff", "C17.errors_are_exactly_offenders", "C17.never_raises_if_components_clean",
+        "C17.raises_only_from_components", "C17.conv_escape_from_component", "C17.typed_clean_no_escape",
+        "C17.reads_history_independent", "C17.reads_keep_invariant", "C17.absent_optional_none", "C17.lazy_same_errors",
+        "C17.lazy_error_in_group", "C17.enriched_version", "C17.enriched_requires_python",
+        "C17.enriched_license_expression", "C17.from_email_spec",
+    ]
     rule = ("RawMetadata dicts over all 30 fields: per-field pools of valid / invalid / exception-escaping values, every "
             "valid metadata version plus invalid and absent ones, unknown keys (incl. names of class attributes), None values; "
             "'all-valid' dicts with exactly one deviation (field one version too new, one invalid value, unknown key, missing "
@@ -220,7 +227,15 @@ class C17(Prop):
                "oracle tabulated per case by the harness; all theorems hold for every oracle",
                "iteration order of the frozenset fields_to_check: a parameter of the model (theorems quantify over every "
                "permutation); the harness passes the order the interpreter uses"]
-    partial = []
+    partial = [
+        "'never modifies the caller's raw dict': a functional model cannot express aliasing; that from_raw works on a copy is "
+        "checked by the correspondence (deep comparison before/after every case) and by the laws, not proved",
+        "'enriched attributes equal what the component parsers return' is by construction of the oracle (the harness "
+        "tabulates the component's answer); proved only as: the attribute is the oracle's canonical form (enriched_*)",
+        "from_email names only the unparsed keys when there are any (known finding); from_email_spec states that behaviour",
+        "RawMetadata values of the wrong type (e.g. a str where a list is declared) are outside the correspondence; the "
+        "model answers TypeError for them and the theorems that need typing say so (typedOk)",
+    ]
     budget = {"quick": (2500, 1500), "thorough": (40000, 30000)}
 
     # ---- correspondence
